@@ -275,6 +275,11 @@ def configs(tier: str):
         for strict, obj_strict in ((True, False), (False, True), (None, True), (None, False), (False, False)):
             out.append(cfg12(kind=kind, n_old=2, n_new=2, fills={'Q': 1}, strict=strict, obj_strict=obj_strict))
             out.append(cfg12(kind=kind, n_old=1, n_new=2, fills={}, strict=strict, obj_strict=obj_strict))
+            for odd in ('values', 'copy', 'eval', 'names'):      # not variables, although the object has attributes of that name
+                out.append(cfg12(kind=kind, n_old=1, n_new=2, fills={odd: 1}, strict=strict, obj_strict=obj_strict))
+        for fv in (7, 0, 2.5):     # a model's status / iterations keep their own defaults whatever fill_value says
+            out.append(cfg12(kind='model', n_old=1, n_new=3, fill_value=fv))
+            out.append(cfg12(kind='model', n_old=2, n_new=3, fill_value=fv, fills={'Y': 1.0}, solved=True))
     # string labels (concrete patterns)
     pats = [(['a', 'b', 'c'], ['b', 'c', 'd']), (['a', 'b'], ['x', 'y']), (['a', 'b', 'c'], ['c', 'b', 'a']), (['a', 'b', 'c'], ['b']),
             (['b'], ['a', 'b', 'c']), (['a', 'a', 'b'], ['a', 'b', 'b'])]
